@@ -263,6 +263,7 @@ type TLCOpts struct {
 	Extra    []string          // extra TLC arguments
 	Coverage bool
 	DFS      bool
+	Heap     string // -Xmx value, e.g. "4g" (default: JVM default)
 }
 
 var (
@@ -313,6 +314,9 @@ func (c *Ctx) TLC(o TLCOpts) TLCRun {
 		timeout = 10 * time.Minute
 	}
 	args := []string{"-XX:+UseParallelGC", "-Xss64m"}
+	if o.Heap != "" {
+		args = append(args, "-Xmx"+o.Heap)
+	}
 	if o.DFS {
 		args = append(args, "-Dtlc2.tool.queue.IStateQueue=StateDeque")
 	}
@@ -580,6 +584,15 @@ type NDWriter struct {
 
 func NewNDWriter(path string) (*NDWriter, error) {
 	f, err := os.Create(path)
+	if err != nil {
+		return nil, err
+	}
+	return &NDWriter{f: f, w: bufio.NewWriterSize(f, 1<<20)}, nil
+}
+
+// AppendNDWriter opens an existing file for appending.
+func AppendNDWriter(path string) (*NDWriter, error) {
+	f, err := os.OpenFile(path, os.O_CREATE|os.O_APPEND|os.O_WRONLY, 0644)
 	if err != nil {
 		return nil, err
 	}
